@@ -40,6 +40,27 @@ WriteDevice(cur2, d, p) ==
 RECURSIVE WriteAll(_, _, _, _)
 WriteAll(cur2, devs, ps, k) == IF k > Len(devs) THEN cur2 ELSE WriteAll(WriteDevice(cur2, devs[k], ps[k]), devs, ps, k + 1)
 
+\* ---------- dispersion coefficients, abstractly ----------
+\* The recurrence coefficients c1..c4 of a material need exp()/cos(); here a material carries ONE abstract integer
+\* `coef` standing for its whole coefficient tuple (0 = non-dispersive: all coefficients are zero), d.coefs[m] for
+\* the m-th material, and a cell carries the DOUBLED value.  Every device writes its cells:
+\*   discrete: the coefficient of the selected material;  continuous: the same linear blend as the permittivity.
+\* `who` = "every": as documented;  "own": only a device that has a dispersive material of its own writes
+\* (negative instance: a plain device on a dispersive background keeps the stale coefficients).
+WriteDeviceCoef(dc2, d, p, who) ==
+    IF who = "own" /\ \A m \in 1..Len(d.coefs) : d.coefs[m] = 0 THEN dc2
+    ELSE [ c1 \in 1..Len(dc2) |->
+             LET c == c1 - 1 IN
+             IF ~InDevice(d, c) THEN dc2[c1]
+             ELSE LET v == p[VoxelOf(d, c)] IN
+                  IF d.kind = "continuous" THEN 2 * d.coefs[1] + v * (d.coefs[2] - d.coefs[1])
+                  ELSE IF d.kind = "discrete" THEN 2 * d.coefs[v + 1]
+                  ELSE dc2[c1] ]             \* etched devices in dispersive scenes are not modelled
+RECURSIVE WriteAllCoef(_, _, _, _, _)
+WriteAllCoef(dc2, devs, ps, k, who) ==
+    IF k > Len(devs) THEN dc2 ELSE WriteAllCoef(WriteDeviceCoef(dc2, devs[k], ps[k], who), devs, ps, k + 1, who)
+AfterCoef(bcoef, devs, ps) == WriteAllCoef([ c1 \in 1..Len(bcoef) |-> 2 * bcoef[c1] ], devs, ps, 1, "every")
+
 \* the documented map: apply the parameter sets ps (one vector per device) to the PLACED scene `base`
 \* (base[c] = permittivity of cell c after placement - what the etch backup stores).  DOUBLED tensors.
 After(base, devs, ps) == WriteAll([ c1 \in 1..Len(base) |-> Dbl(base[c1]) ], devs, ps, 1)
